@@ -947,10 +947,23 @@ pub fn gen_reorder(t: &mut Tape) -> Scenario {
     let o = script_opts(g.t, align);
     let repl = if g.t.draw(3) == 0 { Repl::One } else { Repl::Unlimited };
     let mut s = gen_scripted_source(&mut g, &o, repl);
-    if g.t.draw(3) == 2 {
-        let o2 = script_opts(g.t, 5);
-        let s2 = gen_scripted_source(&mut g, &o2, Repl::Unlimited);
-        s = g.bin(s, s2, BinOp::Merge);
+    match g.t.draw(4) {
+        2 => {
+            let o2 = script_opts(g.t, 5);
+            let s2 = gen_scripted_source(&mut g, &o2, Repl::Unlimited);
+            s = g.bin(s, s2, BinOp::Merge);
+        }
+        3 => {
+            // zip of two timestamped streams in front of reorder: the pairs must respect the
+            // watermarks zip forwards, whichever side is ahead
+            let mut o2 = script_opts(g.t, 5);
+            if o2.wm_every == 0 {
+                o2.wm_every = 2;
+            }
+            let s2 = gen_scripted_source(&mut g, &o2, Repl::Unlimited);
+            s = g.bin(s, s2, BinOp::Zip);
+        }
+        _ => {}
     }
     for _ in 0..g.t.draw(3) {
         let op = match g.t.draw(4) {
